@@ -18,12 +18,20 @@
 (*   "relDrop" accept, receive, answer reliably and drop the exchange at   *)
 (*             once (the answer is still unacknowledged)                   *)
 (* The peer may send any (session, exchange id, initiator, reliable).      *)
+(* The device's own application may open up to MaxOwn exchanges of its own *)
+(* (it is their initiator): a message WITHOUT the initiator flag on such a *)
+(* (session, id) is the peer's answer and goes to that application; a      *)
+(* message WITH the flag on the same (session, id) opens / continues a     *)
+(* responder exchange of the same id - the role is part of the identity.   *)
+(* RoleBlind = TRUE is the defect "the role is ignored for initiator       *)
+(* messages" (must violate RightExchangeOnly).                             *)
 (***************************************************************************)
 EXTENDS Integers, Sequences, FiniteSets, TLC, Json
-CONSTANTS Sess, ExIds, Handlers, MaxPkts, Policies
+CONSTANTS Sess, ExIds, Handlers, MaxPkts, Policies, MaxOwn, OwnKeys, RoleBlind
 
 Keys == Sess \X ExIds
-NONE == [s |-> 0, ex |-> 0, old |-> FALSE]
+Own11 == {<<1, 1>>}          \* for the configurations: the device opens its own exchange under (session 1, id 1)
+NONE == [s |-> 0, ex |-> 0, old |-> FALSE, role |-> "none", init |-> FALSE]
 VARIABLES rx,        \* message waiting in the slot, or NONE
           exch,      \* Keys -> "absent" | "pending" | "owned" | "dropped" | "droppedRetrans"
           owner,     \* Keys -> handler or 0
@@ -34,14 +42,18 @@ VARIABLES rx,        \* message waiting in the slot, or NONE
           inbound,
           delivered, \* set of <<key that got it, key it was for>>
           opened,    \* keys for which an initiator message arrived
+          own,       \* Keys -> "absent" | "open" : exchanges the device itself initiated
+          nown,      \* how many of them were opened so far
+          deliveredOwn, \* set of <<own key that got it, key it was for, initiator flag of the message>>
           h
-vars == <<rx, exch, owner, hstate, ackp, policy, up, inbound, delivered, opened, h>>
-view == <<rx, exch, owner, hstate, ackp, policy, up, inbound, delivered, opened>>
+vars == <<rx, exch, owner, hstate, ackp, policy, up, inbound, delivered, opened, own, nown, deliveredOwn, h>>
+view == <<rx, exch, owner, hstate, ackp, policy, up, inbound, delivered, opened, own, nown, deliveredOwn>>
 
 Init == /\ rx = NONE /\ exch = [k \in Keys |-> "absent"] /\ owner = [k \in Keys |-> 0]
         /\ hstate = [x \in Handlers |-> "idle"] /\ ackp = [k \in Keys |-> FALSE]
         /\ policy \in [ExIds -> Policies]
         /\ up = [s \in Sess |-> TRUE] /\ inbound = 0 /\ delivered = {} /\ opened = {}
+        /\ own = [k \in Keys |-> "absent"] /\ nown = 0 /\ deliveredOwn = {}
         /\ h = <<[op |-> "Policy", p |-> policy]>>
 
 \* process_rx (only with an empty slot) + decode_packet + Session::post_recv
@@ -50,53 +62,66 @@ RecvPkt(s, e, init, rel) ==
   /\ rx = NONE /\ inbound < MaxPkts /\ inbound' = inbound + 1
   /\ h' = Append(h, [op |-> "Pkt", s |-> s, e |-> e, init |-> init, rel |-> rel])
   /\ IF ~up[s] THEN UNCHANGED <<rx, exch, ackp, opened>>                          \* NoSession: dropped (SessionNotFound answer)
+     ELSE IF own[k] = "open" /\ (~init \/ RoleBlind)
+          THEN /\ rx' = [s |-> s, ex |-> e, old |-> FALSE, role |-> "ini", init |-> init]   \* for the exchange the device initiated
+               /\ UNCHANGED <<exch, ackp, opened>>
      ELSE IF exch[k] # "absent" /\ init
-          THEN /\ rx' = [s |-> s, ex |-> e, old |-> FALSE]                         \* next message of a responder exchange
+          THEN /\ rx' = [s |-> s, ex |-> e, old |-> FALSE, role |-> "rsp", init |-> TRUE]  \* next message of a responder exchange
                /\ ackp' = [ackp EXCEPT ![k] = @ \/ rel] /\ UNCHANGED <<exch, opened>>
      ELSE IF exch[k] = "absent" /\ init
           THEN /\ exch' = [exch EXCEPT ![k] = "pending"]                            \* opens a new responder exchange
-               /\ rx' = [s |-> s, ex |-> e, old |-> FALSE]
+               /\ rx' = [s |-> s, ex |-> e, old |-> FALSE, role |-> "rsp", init |-> TRUE]
                /\ ackp' = [ackp EXCEPT ![k] = rel] /\ opened' = opened \cup {k}
      ELSE UNCHANGED <<rx, exch, ackp, opened>>                                     \* answer to an unknown exchange: dropped
-  /\ UNCHANGED <<owner, hstate, policy, up, delivered>>
+  /\ UNCHANGED <<owner, hstate, policy, up, delivered, own, nown, deliveredOwn>>
 \* a datagram for a session the device never had
 StrayPkt == /\ rx = NONE /\ inbound < MaxPkts /\ inbound' = inbound + 1
             /\ h' = Append(h, [op |-> "Stray"])
-            /\ UNCHANGED <<rx, exch, owner, hstate, ackp, policy, up, delivered, opened>>
+            /\ UNCHANGED <<rx, exch, owner, hstate, ackp, policy, up, delivered, opened, own, nown, deliveredOwn>>
 
 RxKey == <<rx.s, rx.ex>>
-Accept(x) == /\ hstate[x] = "idle" /\ rx # NONE /\ up[rx.s] /\ exch[RxKey] = "pending"
+\* the device's own application: Exchange::initiate_for_session + send, recv on it, drop
+DevInit(s, e) == LET k == <<s, e>> IN
+  /\ nown < MaxOwn /\ up[s] /\ own[k] = "absent" /\ own' = [own EXCEPT ![k] = "open"] /\ nown' = nown + 1
+  /\ h' = Append(h, [op |-> "DevInit", s |-> s, e |-> e])
+  /\ UNCHANGED <<rx, exch, owner, hstate, ackp, policy, up, inbound, delivered, opened, deliveredOwn>>
+OwnRecv(k) == /\ own[k] = "open" /\ rx # NONE /\ RxKey = k /\ rx.role = "ini"
+              /\ deliveredOwn' = deliveredOwn \cup {<<k, RxKey, rx.init>>} /\ rx' = NONE
+              /\ UNCHANGED <<exch, owner, hstate, ackp, policy, up, inbound, delivered, opened, own, nown, h>>
+OwnClose(k) == /\ own[k] = "open" /\ ~(rx # NONE /\ RxKey = k /\ rx.role = "ini") /\ own' = [own EXCEPT ![k] = "absent"]
+               /\ UNCHANGED <<rx, exch, owner, hstate, ackp, policy, up, inbound, delivered, opened, nown, deliveredOwn, h>>
+Accept(x) == /\ hstate[x] = "idle" /\ rx # NONE /\ rx.role = "rsp" /\ up[rx.s] /\ exch[RxKey] = "pending"
              /\ exch' = [exch EXCEPT ![RxKey] = "owned"] /\ owner' = [owner EXCEPT ![RxKey] = x]
              /\ hstate' = [hstate EXCEPT ![x] = "busy"]
-             /\ UNCHANGED <<rx, ackp, policy, up, inbound, delivered, opened, h>>
+             /\ UNCHANGED <<rx, ackp, policy, up, inbound, delivered, opened, own, nown, deliveredOwn, h>>
 
 \* ExchangeId::recv: the owner takes the message that is for its session and its exchange
-OwnerRecv(k) == /\ exch[k] = "owned" /\ rx # NONE /\ RxKey = k
+OwnerRecv(k) == /\ exch[k] = "owned" /\ rx # NONE /\ RxKey = k /\ rx.role = "rsp"
                 /\ delivered' = delivered \cup {<<k, RxKey>>} /\ rx' = NONE
-                /\ UNCHANGED <<exch, owner, hstate, ackp, policy, up, inbound, opened, h>>
+                /\ UNCHANGED <<exch, owner, hstate, ackp, policy, up, inbound, opened, own, nown, deliveredOwn, h>>
 
 \* the owner is done with the exchange, as its policy says
 OwnerFinish(k) ==
-  /\ exch[k] = "owned" /\ (rx = NONE \/ RxKey # k)
+  /\ exch[k] = "owned" /\ (rx = NONE \/ RxKey # k \/ rx.role # "rsp")
   /\ CASE policy[k[2]] = "reply" -> /\ ackp' = [ackp EXCEPT ![k] = FALSE] /\ exch' = [exch EXCEPT ![k] = "absent"]   \* the answer carries the ack
        [] policy[k[2]] = "relDrop" -> /\ ackp' = [ackp EXCEPT ![k] = FALSE] /\ exch' = [exch EXCEPT ![k] = "droppedRetrans"]
        [] OTHER -> /\ UNCHANGED ackp /\ exch' = [exch EXCEPT ![k] = IF ackp[k] THEN "dropped" ELSE "absent"]   \* Exchange::drop
   /\ hstate' = [hstate EXCEPT ![owner[k]] = "idle"] /\ owner' = [owner EXCEPT ![k] = 0]
-  /\ UNCHANGED <<rx, policy, up, inbound, delivered, opened, h>>
+  /\ UNCHANGED <<rx, policy, up, inbound, delivered, opened, own, nown, deliveredOwn, h>>
 
 Age == /\ rx # NONE /\ ~rx.old /\ rx' = [rx EXCEPT !.old = TRUE]
-       /\ UNCHANGED <<exch, owner, hstate, ackp, policy, up, inbound, delivered, opened, h>>
+       /\ UNCHANGED <<exch, owner, hstate, ackp, policy, up, inbound, delivered, opened, own, nown, deliveredOwn, h>>
 \* nobody accepted within ACCEPT_TIMEOUT_MS: the exchange is marked dropped and the slot is cleared
-AcceptTimeout == /\ rx # NONE /\ rx.old /\ up[rx.s] /\ exch[RxKey] = "pending"
+AcceptTimeout == /\ rx # NONE /\ rx.old /\ rx.role = "rsp" /\ up[rx.s] /\ exch[RxKey] = "pending"
                  /\ exch' = [exch EXCEPT ![RxKey] = "dropped"] /\ rx' = NONE
-                 /\ UNCHANGED <<owner, hstate, ackp, policy, up, inbound, delivered, opened, h>>
+                 /\ UNCHANGED <<owner, hstate, ackp, policy, up, inbound, delivered, opened, own, nown, deliveredOwn, h>>
 \* a message whose session / exchange vanished, or whose owner dropped the exchange
-OrphanSweep == /\ rx # NONE /\ (~up[rx.s] \/ exch[RxKey] \in {"absent", "dropped", "droppedRetrans"})
-               /\ rx' = NONE /\ UNCHANGED <<exch, owner, hstate, ackp, policy, up, inbound, delivered, opened, h>>
+OrphanSweep == /\ rx # NONE /\ (~up[rx.s] \/ (rx.role = "rsp" /\ exch[RxKey] \in {"absent", "dropped", "droppedRetrans"}) \/ (rx.role = "ini" /\ own[RxKey] = "absent"))
+               /\ rx' = NONE /\ UNCHANGED <<exch, owner, hstate, ackp, policy, up, inbound, delivered, opened, own, nown, deliveredOwn, h>>
 \* dropped exchanges are closed: a stand-alone ack if one is owed, then the slot is freed ...
 DroppedCloser == \E k \in Keys : /\ exch[k] = "dropped"
                                  /\ exch' = [exch EXCEPT ![k] = "absent"] /\ ackp' = [ackp EXCEPT ![k] = FALSE]
-                                 /\ UNCHANGED <<rx, owner, hstate, policy, up, inbound, delivered, opened, h>>
+                                 /\ UNCHANGED <<rx, owner, hstate, policy, up, inbound, delivered, opened, own, nown, deliveredOwn, h>>
 \* ... or, with a retransmission still pending, the whole session is closed (CloseSession) - whatever else is on it
 SessionCloser == \E k \in Keys : /\ exch[k] = "droppedRetrans"
                                  /\ up' = [up EXCEPT ![k[1]] = FALSE]
@@ -104,26 +129,30 @@ SessionCloser == \E k \in Keys : /\ exch[k] = "droppedRetrans"
                                  /\ ackp' = [j \in Keys |-> IF j[1] = k[1] THEN FALSE ELSE ackp[j]]
                                  /\ hstate' = [x \in Handlers |-> IF \E j \in Keys : j[1] = k[1] /\ owner[j] = x THEN "idle" ELSE hstate[x]]
                                  /\ owner' = [j \in Keys |-> IF j[1] = k[1] THEN 0 ELSE owner[j]]
-                                 /\ UNCHANGED <<rx, policy, inbound, delivered, opened, h>>
+                                 /\ own' = [j \in Keys |-> IF j[1] = k[1] THEN "absent" ELSE own[j]]
+                                 /\ UNCHANGED <<rx, policy, inbound, delivered, opened, nown, deliveredOwn, h>>
 
 Next == \/ \E s \in Sess, e \in ExIds, i \in BOOLEAN, r \in BOOLEAN : RecvPkt(s, e, i, r)
         \/ StrayPkt
         \/ \E x \in Handlers : Accept(x)
-        \/ \E k \in Keys : OwnerRecv(k) \/ OwnerFinish(k)
+        \/ \E k \in Keys : OwnerRecv(k) \/ OwnerFinish(k) \/ OwnRecv(k) \/ OwnClose(k)
+        \/ \E k \in OwnKeys : DevInit(k[1], k[2])
         \/ Age \/ AcceptTimeout \/ OrphanSweep \/ DroppedCloser \/ SessionCloser
 
 Fair == /\ WF_vars(Age) /\ WF_vars(AcceptTimeout) /\ WF_vars(OrphanSweep) /\ WF_vars(DroppedCloser) /\ WF_vars(SessionCloser)
         /\ \A k \in Keys : WF_vars(OwnerRecv(k)) /\ SF_vars(OwnerFinish(k))
+        /\ \A k \in (IF MaxOwn > 0 THEN OwnKeys ELSE {}) : WF_vars(OwnRecv(k)) /\ SF_vars(OwnClose(k))
 Spec == Init /\ [][Next]_vars /\ Fair
 
 \* RightExchangeOnly: a message reaches only the exchange (session, id) it was sent on
-RightExchangeOnly == \A d \in delivered : d[1] = d[2]
+RightExchangeOnly == /\ \A d \in delivered : d[1] = d[2]
+                     /\ \A d \in deliveredOwn : d[1] = d[2] /\ ~d[3]          \* ... and in the role it was sent for
 \* OpensOnlyIfAllowed: exchanges exist only for keys an initiator message arrived for
 OpensOnlyIfAllowed == \A k \in Keys : exch[k] # "absent" => k \in opened
 \* NoWedge: the slot always becomes free again
 SlotEventuallyFree == (rx # NONE) ~> (rx = NONE)
 \* UnclaimedIsDiscarded / no leak: once the peer stops sending, every exchange is eventually closed
-EventuallyClean == <>[](inbound = MaxPkts => (\A k \in Keys : exch[k] = "absent") /\ rx = NONE)
+EventuallyClean == <>[]((inbound = MaxPkts /\ nown = MaxOwn) => (\A k \in Keys : exch[k] = "absent" /\ own[k] = "absent") /\ rx = NONE)
 
 EmitAtEnd == inbound = MaxPkts => PrintT(<<"REPLAY", ToJson(h)>>)
 =============================================================================
